@@ -134,7 +134,9 @@ class Worker:
 def run_phase(cfg, check, tier, seed, work, phase, agg, only=None):
     ok, binary, blog = build(phase["profile"])
     if not ok:
-        agg["inconclusive"].append(f"build of profile {phase['profile']} failed: " + blog[-800:])
+        errs = [l for l in blog.splitlines() if l.startswith("error")]
+        agg["inconclusive"].append(f"build of profile {phase['profile']} failed: " + " | ".join(errs[:6])[:800])
+        agg["build_failed"] = True
         return
     nshards = 1 if only is not None else phase.get("nshards", NCPU)
     timeout = phase.get("timeout_s", 3600)
@@ -310,6 +312,8 @@ def finish(cfg, tier, seed, agg, wall):
     c = agg["counters"]
     # vacuity guards: an ineffective run is inconclusive, never "held"
     for key, minimum in cfg.get("require", {}).get(tier, cfg.get("require", {}).get("any", {})).items():
+        if agg.get("build_failed"):
+            break
         if c.get(key, 0) < minimum:
             agg["inconclusive"].append(f"vacuity guard: counter {key}={c.get(key, 0)} < {minimum}")
     distinct = len(agg["fps"]) + agg["enumerated"]
